@@ -56,9 +56,11 @@ Definition split_marked_flushed_trace : list pevent :=
 Definition split_marked_flushed_refuted_stmt : Prop :=
   outcome split_marked_flushed_trace CProc = (Some (11, 2), Some [(0, true); (1, true); (2, false)], [2; 1; 0], []).
 
-(* ---- windows the CURRENT code leaves open (not observed in recorded traces; see REPORT.md) *)
+(* ---- a window of the commit path (see REPORT: decided on the real code), then two regression records
+   of the recovery BEFORE c9fa42b / 372cb98 *)
 
-(* (4) the flush of the rotated memtable is started (wake_up_memtable) before `relog_if_rotated`
+(* (4) OPEN on the real code (finding F51, tools/repro/multigen.py relograce exhibits it with a directed
+   schedule): the flush of the rotated memtable is started (wake_up_memtable) before `relog_if_rotated`
    runs and no lock orders the two: if the install wins, the not yet acknowledged batch 1 is
    recovered in part after a crash (P2) *)
 Definition flush_before_relog_trace : list pevent :=
@@ -67,7 +69,7 @@ Definition flush_before_relog_trace : list pevent :=
 Definition flush_before_relog_refuted_stmt : Prop :=
   outcome flush_before_relog_trace CProc = (Some (9, 2), Some [(0, true); (1, false)], [0], []).
 
-(* (5) recovery after a PROCESS crash flushes the first piece of the split last segment (a table
+(* (5) OLD recovery (before c9fa42b; finding F46): after a PROCESS crash it flushes the first piece of the split last segment (a table
    holding a part of batch 2, log_number unchanged) while the segment itself was never fsynced
    (obligation 8 = P8); a power loss before the next WAL fsync leaves the part without the whole.
    After a power loss as FIRST crash everything that survived is on disk and the same events are
@@ -75,17 +77,17 @@ Definition flush_before_relog_refuted_stmt : Prop :=
 Definition piece_unsynced_trace (c : pcrash) : list pevent :=
   [ManifestInstall 0 []; WalRotate 0; WalAppend 0 0; Ack 0 false; WalAppend 0 1; Ack 1 false; WalAppend 0 2;
    Ack 2 false; Crash c; TableWrite 1 [(0, true); (1, true); (2, false)]; TableSync 1; ManifestInstall 0 [1]].
-Definition recovery_piece_unsynced_refuted_stmt : Prop :=
+Definition recovery_piece_unsynced_old_recovery_refuted_stmt : Prop :=
   outcome (piece_unsynced_trace CProc) (CPow [(0, 0)] [] []) = (Some (11, 8), Some [(0, true); (1, true); (2, false)], [2; 1; 0], []) /\
   proto_err (piece_unsynced_trace (CPow [] [] [])) = None.
 
-(* (6) recovery of a split segment that is NOT the last one marks it flushed with its first piece
+(* (6) OLD recovery (before 372cb98; finding F47): a split segment that is NOT the last one is marked flushed with its first piece
    (`segment_complete = wal_number < last_wal_number`): a crash between the pieces loses batch 2 (P2) *)
 Definition nonlast_split_trace : list pevent :=
   [ManifestInstall 0 []; WalRotate 0; WalAppend 0 0; Ack 0 false; WalAppend 0 1; Ack 1 false; WalAppend 0 2;
    Ack 2 false; WalSync 0; WalRotate 1; WalAppend 1 3; Crash CProc;
    TableWrite 1 [(0, true); (1, true)]; TableSync 1; ManifestInstall 1 [1]].
-Definition recovery_nonlast_split_refuted_stmt : Prop :=
+Definition recovery_nonlast_split_old_recovery_refuted_stmt : Prop :=
   outcome nonlast_split_trace CProc = (Some (14, 2), Some [(0, true); (1, true); (3, true)], [2; 1; 0], []).
 
 (* ---- obligations that randomised search does not hit easily: each is needed *)
@@ -110,3 +112,26 @@ Definition p4_needed_stmt : Prop := outcome p4_trace CProc = (Some (7, 4), None,
    countable, but the obligation rejects the append *)
 Definition p5_trace : list pevent := [ManifestInstall 0 []; WalRotate 0; WalPartial 0; Crash CProc; WalAppend 0 0].
 Definition p5_rejected_stmt : Prop := proto_err p5_trace = Some (4, 5).
+
+(* ---- the REPAIRED recovery (Proto.recovery_full) on the same two states: all replayed segments are
+   fsynced first, log_number moves past a segment only with its last piece; the events are accepted
+   and a power loss right after them loses nothing *)
+Definition prefix5 : list pevent := firstn 8 (piece_unsynced_trace CProc).
+Definition cuts5 (s : nat) : list (nat * bool) := match s with 0 => [(2, true)] | _ => [] end.
+Definition repaired5 : list pevent := recovery_full (do_crash (prun prefix5) CProc) cuts5 [1; 2; 3].
+Definition repaired_piece_recovery_stmt : Prop :=
+  repaired5 = [WalSync 0; TableWrite 1 [(0, true); (1, true); (2, false)]; TableSync 1; ManifestInstall 0 [1]] /\
+  outcome (prefix5 ++ Crash CProc :: repaired5) (CPow [(0, 0)] [] [])
+  = (None, Some [(0, true); (1, true); (2, false); (0, true); (1, true); (2, true)], [2; 1; 0], []).
+
+Definition prefix6 : list pevent := firstn 11 nonlast_split_trace.
+Definition cuts6 (s : nat) : list (nat * bool) := match s with 0 => [(2, false)] | _ => [] end.
+Definition repaired6 : list pevent := recovery_full (do_crash (prun prefix6) CProc) cuts6 [1; 2; 3].
+Definition repaired_nonlast_recovery_stmt : Prop :=
+  repaired6 = [WalSync 0; WalSync 1;
+               TableWrite 1 [(0, true); (1, true)]; TableSync 1; ManifestInstall 0 [1];
+               TableWrite 2 [(2, true)]; TableSync 2; ManifestInstall 1 [1; 2]] /\
+  proto_err (prefix6 ++ Crash CProc :: repaired6) = None /\
+  (* a crash between the two pieces: everything is there *)
+  snd (fst (fst (outcome (prefix6 ++ Crash CProc :: firstn 5 repaired6) CProc)))
+  = Some [(0, true); (1, true); (0, true); (1, true); (2, true); (3, true)].
